@@ -102,6 +102,16 @@ def frame(ctx, rep, cfgs=None):
         rep.instances(nw, 20, 'write sites')
         for g in M:
             rep.info.setdefault('writers', {})[cfg + ':' + g] = sorted(writers.get(g, []))
+        rep.rule('FRAME-4', 'the two pieces of library state are independent: each mutable global is written from exactly one of the set-up entry points '
+                 '(the dependency table from polyseed_inject, the enabled-feature mask from polyseed_enable_features), so injecting functions cannot change '
+                 'the feature mask and enabling features cannot change the injected functions')
+        reach = {s_: set(P.reachable_from([s_])) for s_ in SETUP_FUNCS}
+        for g in sorted(M):
+            roots = sorted(s_ for s_ in SETUP_FUNCS if any(wf in reach[s_] for wf in writers.get(g, ())))
+            gi = P.globals[g]
+            rep.check(len(roots) <= 1, 'mutable global %s is written from one set-up entry point only (%s)' % (g, ', '.join(roots) or 'none'),
+                      '%s:%s' % (gi.get('file', '?').replace('/repo/', ''), gi.get('line', '?')), '%s written from %s' % (g, ' and '.join(roots)),
+                      detail={'global': g, 'writers': sorted(writers.get(g, ())), 'entry_points': roots}, sample={'global': g, 'entry_point': roots}, key='FRAME-4|%s' % g)
 
         rep.rule('FRAME-3', 'no pointer to a mutable global is stored into any object or returned to a caller '
                  '(pointers handed out are to constant tables only)')
@@ -121,6 +131,69 @@ def frame(ctx, rep, cfgs=None):
                           i.loc, '%s escapes %s' % (f.name, esc))
         rep.instances(n3, 2, 'pointer store/return sites')
     return True
+
+
+STATE_BLIND = ('polyseed_encode', 'polyseed_store', 'polyseed_keygen', 'polyseed_crypt', 'polyseed_get_birthday', 'polyseed_get_feature',
+               'polyseed_is_encrypted', 'polyseed_free')
+
+
+def state_reads(ctx, rep, cfgs=None):
+    """FRAME-5: operations on an existing seed are functions of the seed and their arguments only"""
+    for cfg in cfgs or ['NsS']:
+        P = ctx.prog(cfg); pts = P.points_to()
+        if cfg not in rep.configs: rep.configs.append(cfg)
+        M = mutable_globals(P)
+        written = set()
+        for f in P.defined.values():
+            for i in f.all_insts():
+                for ptr in written_pointers(P, f, i):
+                    written |= {o[1] for o in pts.of(f, ptr) if o[0] == 'global'}
+        M = {k: v for k, v in M.items() if k in written}       # (a non-const table nobody writes is not state)
+        deps = {g['name'] for g in P.dep_globals()}
+        rep.rule('FRAME-5', 'operations on an existing seed (encode, store, keygen, crypt, the getters, free) are functions of the seed, their arguments and the '
+                 'injected functions only: no function reachable from them reads (load / memcpy / memcmp source, resolved by points-to) a mutable global other '
+                 'than the dependency table - in particular not the enabled-feature mask, which only the constructors (create, decode, load) consult')
+        n = 0
+        for root in STATE_BLIND:
+            if root not in P.defined: raise AnalysisBroken('public function %s not found' % root)
+            reach = [P.defined[x] for x in sorted(P.reachable_from([root])) if x in P.defined]
+            bad = []
+            for f in reach:
+                for i in f.all_insts():
+                    srcs = []
+                    if i.op == 'load': srcs = [i.ops[0]]
+                    elif i.op == 'call' and not P.is_dbg(i):
+                        t = P.call_target(i)
+                        if t[0] == 'direct' and (t[1].startswith('llvm.memcpy') or t[1].startswith('llvm.memmove') or t[1] in ('memcpy', 'memmove')): srcs = [i.ops[1]]
+                        elif t[0] == 'direct' and t[1] == 'memcmp': srcs = i.ops[:2]
+                    for a in srcs:
+                        n += 1
+                        hit = [o[1] for o in pts.of(f, a) if o[0] == 'global' and o[1] in M and o[1] not in deps]
+                        if hit: bad.append((i.loc, base_name(f.name), hit[0]))
+            rep.check(not bad, '%s reads no library state other than the injected functions' % root, bad[0][0] if bad else '%s:%s' % ((P.defined[root].file or '').replace('/repo/', ''), P.defined[root].line),
+                      '%s reads %s (via %s)' % (root, bad[0][2], bad[0][1]) if bad else root, detail=[list(b) for b in bad[:3]],
+                      sample={'function': root, 'functions_reachable': len(reach)}, key='FRAME-5|%s' % root)
+        rep.instances(n, 20, 'read sites examined')
+
+
+def visibility(ctx, rep):
+    """FRAME-6: the library's mutable state is its own also in the shared-library build"""
+    cfg = 'NsH'
+    P = ctx.prog(cfg)
+    if cfg not in rep.configs: rep.configs.append(cfg)
+    rep.rule('FRAME-6', 'shared-library configuration (POLYSEED_SHARED): every non-constant global the library defines has internal linkage or hidden visibility, '
+             'so the copy of the injected functions and the feature mask cannot be bound to a same-named object of the application (ELF symbol interposition) '
+             'and are not part of the exported interface; the public API functions are the only default-visibility symbols')
+    n = 0
+    for g in P.globals.values():
+        if g['constant'] or g['decl']: continue
+        n += 1
+        where = '%s:%s' % (g.get('file', '?').replace('/repo/', ''), g.get('line', '?'))
+        ok = g['linkage'] == 'local' or g.get('visibility') == 'hidden'
+        rep.check(ok, 'mutable global %s is %s' % (g['name'], 'internal' if g['linkage'] == 'local' else g.get('visibility')), where,
+                  'global %s is exported from the shared library' % g['name'], detail={'linkage': g['linkage'], 'visibility': g.get('visibility')},
+                  sample={'global': g['name'], 'linkage': g['linkage'], 'visibility': g.get('visibility')}, key='FRAME-6|%s' % g['name'])
+    rep.instances(n, 2, 'mutable globals')
 
 
 def who_may_call(ctx, rep, cfgs=None):
